@@ -103,8 +103,15 @@ pub fn build_catalogue(ctx: &Ctx, n: usize, count: usize) -> Catalogue {
     b.register_public_inputs(&ts);
     let data = b.build::<C>();
     let mut rng = ctx.rng(&format!("catalogue{n}"));
-    let universe: Vec<[u64; 4]> = (0..12).map(|_| [rng.gen_range(0..P), rng.gen_range(0..P), rng.gen_range(0..P), rng.gen_range(0..P)]).collect();
-    let blocks: Vec<[u64; 4]> = vec![[1, 0, 0, 0], [0, 0, 0, 9], [rng.gen_range(0..P), rng.gen_range(0..P), 5, P - 1]];
+    let mut universe: Vec<[u64; 4]> = (0..9).map(|_| [rng.gen_range(0..P), rng.gen_range(0..P), rng.gen_range(0..P), rng.gen_range(0..P)]).collect();
+    // one-limb neighbours of a nullifier in use (every limb position): an index keyed on part of the digest confuses them
+    for k in 0..4 {
+        let mut nb = universe[0];
+        nb[k] = (nb[k] + 1 + rng.gen_range(0..3)) % P;
+        universe.push(nb);
+    }
+    // bucket keys that differ from one another in a single limb only
+    let blocks: Vec<[u64; 4]> = vec![[1, 0, 0, 0], [0, 0, 0, 9], [1, 0, 0, 9], [rng.gen_range(0..P), rng.gen_range(0..P), 5, P - 1]];
     let specs: Vec<(Vec<u64>, &'static str)> = (0..count)
         .map(|i| {
             let mut v = vec![0u64; pi_len(n)];
